@@ -306,4 +306,74 @@ func checkC03(e *core.Env) {
 			}
 		}
 	})
+
+	// the caller's context ends just as the in-process handler returns (server goroutine parked on entry to
+	// its finishing code, then the cancel, then release): the client may see the cancellation or the end of the
+	// stream, but an end of stream reported as success comes with the trailers the handler set
+	var inp *Carrier
+	for _, c := range cs.list {
+		if c.Inproc {
+			inp = c
+		}
+	}
+	e.Cases("cancel-at-finish", e.N(40, 600), func(i int, r *rand.Rand) {
+		kind := Kind(1 + i%3)
+		sc := genMetaScript(r, kind, false)
+		sc.Ret = Ret{}
+		hasTrl := false
+		for _, op := range sc.Handler {
+			if op.Op == "settrl" && len(op.MD) > 0 {
+				hasTrl = true
+			}
+		}
+		if !hasTrl {
+			sc.Handler = append(sc.Handler, Op{Op: "settrl", MD: metadata.MD{"final-key": {"final-value"}}})
+		}
+		has := false
+		for _, op := range sc.Receiver {
+			if op.Op == "trailer" {
+				has = true
+			}
+		}
+		if !has {
+			sc.Receiver = append(sc.Receiver, Op{Op: "trailer"})
+		}
+		dry := runPlaced(inp, sc, "cancel", placement{"none", 0})
+		if !dry.finished {
+			e.Inconclusive("C03 cancel-at-finish: dry run did not finish")
+			return
+		}
+		idx := -1
+		for k, h := range dry.hits {
+			if h == "stream.server.finish" {
+				idx = k
+				break
+			}
+		}
+		if idx < 0 {
+			e.Inconclusive("C03 cancel-at-finish: finish hook not seen")
+			return
+		}
+		for rep := 0; rep < 8; rep++ {
+			res := runPlaced(inp, sc, "cancel", placement{"hook", idx})
+			if !res.finished || !res.reached {
+				continue
+			}
+			out := res.run.ClientOutcome()
+			e.Eval(fmt.Sprintf("cancel-at-finish|%s|ok=%v", kind, out.OK), true)
+			e.Count("cancel_at_finish_placed", 1)
+			if out.OK {
+				e.Count("cancel_at_finish_success_seen", 1)
+			}
+			if !out.Seen || !out.OK {
+				continue
+			}
+			for _, p := range metaOracle(res.run) {
+				if strings.HasSuffix(p[0], "/success") {
+					e.Violate("inproc/stream/cancel-at-finish/"+p[0], "context ended as the handler returned; the client reported a successful end of stream, yet: "+p[1], witness(res.run))
+					return
+				}
+			}
+		}
+	})
 }
